@@ -135,6 +135,9 @@ Definition create_ok (rp : policy) (m : meta) (t : Z) : Prop :=
 Lemma min_nano_far : 9223372036854775808 <= c08_min_nano_time - zero_time.
 Proof. unfold c08_min_nano_time, zero_time. lia. Qed.
 
+Lemma min_int64_below : min_int64 < c08_min_nano_time /\ zero_time < min_int64.
+Proof. unfold min_int64, c08_min_nano_time, zero_time. lia. Qed.
+
 Lemma truncate_bounds t d : 0 < d < 9223372036854775808 -> c08_min_nano_time <= t ->
   zero_time < truncate t d /\ truncate t d <= t /\ t < truncate t d + d.
 Proof.
@@ -148,7 +151,7 @@ Lemma data_create_inv rp m t m' :
   exists shardN se,
     shard_n rp (m_nodes m) = Ok shardN /\
     se = fold_left (shrink t) (m_groups m)
-           (truncate t (rp_sd rp),
+           ((if truncate t (rp_sd rp) <? min_int64 then min_int64 else truncate t (rp_sd rp)),
             if c08_max_nano_time <? truncate t (rp_sd rp) + rp_sd rp then c08_max_nano_time + 1
             else truncate t (rp_sd rp) + rp_sd rp) /\
     m' = mkM (isort (m_groups m ++ [mkG (m_maxsg m + 1)%N (fst se) (snd se) false None
@@ -188,7 +191,11 @@ Proof.
     destruct (truncate_bounds t (rp_sd rp) Hsd ltac:(lia)) as (T1 & T2 & T3).
     assert (Hte : t < e').
     { apply S4. destruct (c08_max_nano_time <? truncate t (rp_sd rp) + rp_sd rp) eqn:E; lia. }
-    assert (Hst : s' <= t) by (apply S3; exact T2).
+    pose proof min_int64_below as [Hmi1 Hmi2].
+    assert (Hst : s' <= t).
+    { apply S3. destruct (truncate t (rp_sd rp) <? min_int64) eqn:E; lia. }
+    assert (Hs0 : zero_time < s').
+    { destruct (truncate t (rp_sd rp) <? min_int64) eqn:E; lia. }
     pose proof min_nano_far as Hfar.
     set (g := mkG (m_maxsg m + 1)%N s' e' false None (seqN (m_maxsh m + 1)%N (N.to_nat k))).
     assert (Hgwf : wf_group g = true).
